@@ -2,17 +2,17 @@ CONSTANTS
  Confs <- MCConfs
  FixWaitErr = FALSE
  Reduce = FALSE
- MCShapes = {"img", "schema1", "inline"}
- MCPairs = {"tworeg", "samereg", "dir2dir"}
+ MCShapes = {"img", "inline"}
+ MCPairs = {"tworeg"}
  MCOpts <- MCOptsDefault
  MCFeats <- MCFeatsDefault
  MCInit = "all"
  MCTag0 = {"none", "stale"}
  MCByDigest = {FALSE}
- MCTgtByDigest = {FALSE, TRUE}
+ MCTgtByDigest = {FALSE}
  MaxFaults = 0
  AllowCancel = FALSE
- AllowCrash = TRUE
+ AllowCrash = FALSE
  Cap = 0
 INIT Init
 NEXT Next
